@@ -23,6 +23,11 @@ def check(ctx):
         tag = "" if cfg == "std" else "@" + cfg
         e1_site_findings(ctx, res, "e1-cast" + tag, e1, lambda fn, kind, desc, s: kind == "cast")
         out = rules_val.run(F, inv_from_e1(e1))
+        rejecting = {r["fn"] for r in out}
+        # arithmetic of a range-checking function must not wrap: an overflow after the guard means the guard accepts a
+        # value the field cannot represent (release builds truncate, debug builds panic)
+        e1_site_findings(ctx, res, "e1-overflow" + tag, e1,
+                         lambda fn, kind, desc, s: kind == "panic" and "Overflow" in desc and fn in rejecting)
         res.analysed["rejecting_functions" + tag] = len(out)
         seen = set()
         for r in out:
